@@ -191,7 +191,7 @@ func c1mImplTexts(texts []string) (ans string) {
 }
 
 func c1ModelRefOps(c *Cfg, r *Rng) {
-	n := c.Pick(800, 8000)
+	n := c.Pick(800, 4000)
 	g := &c1mgen{r: r}
 	kinds := c1kinds("perm", "comm", "assoc", "dup", "top", "split", "merge", "files")
 	and := func(a, b *c1mx) *c1mx { return &c1mx{op: '&', args: []*c1mx{a, b}} }
